@@ -20,8 +20,10 @@ import (
 	"errors"
 	"fmt"
 	"hash"
+	"runtime/debug"
 	"sort"
 	"strings"
+	"syscall"
 	"unsafe"
 
 	"github.com/lestrrat-go/jwx/v2/jwk"
@@ -68,13 +70,19 @@ type c17Input struct {
 	// data, key, ... of later ones, and EVERY array held (earlier outputs included) is
 	// compared before/after every later call.
 	Prev []c17Input `json:"prev,omitempty"`
+	// RO: every array of this call that the explicit destination does not live in is placed in
+	// its own page-aligned mapping that is READ-ONLY while the call runs.  A store into it -
+	// also one that would be undone before the call returns - faults; the fault is caught
+	// (debug.SetPanicOnFault), the call is aborted there and the cell is reported.
+	RO bool `json:"ro,omitempty"`
 }
 
 // session: the memory and the objects one chain of calls shares.
 type session struct {
 	arrs      [][]byte
 	objs      map[string]any
-	last      []view // where the results of the last call live (Arr -1: empty / none)
+	regions   [][]byte // read-only mappings to release
+	last      []view   // where the results of the last call live (Arr -1: empty / none)
 	lastErr   string
 	lastPanic bool
 }
@@ -112,8 +120,30 @@ func (s *session) hold(r []byte) view {
 	return view{Arr: len(s.arrs) - 1, Off: 0, Len: len(r), Cap: cap(r)}
 }
 
+// roAlloc: a private anonymous mapping holding data at its start (the rest of the last page
+// is protected too).
+func roAlloc(data []byte) ([]byte, []byte, error) {
+	page := syscall.Getpagesize()
+	size := (len(data) + page - 1) / page * page
+	region, err := syscall.Mmap(-1, 0, size, syscall.PROT_READ|syscall.PROT_WRITE, syscall.MAP_ANON|syscall.MAP_PRIVATE)
+	if err != nil {
+		return nil, nil, err
+	}
+	copy(region, data)
+	return region[:len(data):len(data)], region, nil
+}
+
+func (s *session) release() {
+	for _, reg := range s.regions {
+		syscall.Mprotect(reg, syscall.PROT_READ|syscall.PROT_WRITE)
+		syscall.Munmap(reg)
+	}
+	s.regions = nil
+}
+
 func c17Run(ctx *core.Ctx, in c17Input) error {
 	s := newSession()
+	defer s.release()
 	for _, step := range in.Prev {
 		step.Prev = nil
 		if err := s.exec(ctx, step, nil); err != nil {
@@ -367,7 +397,22 @@ func coqView(v view) string {
 // exec performs one call in the session; with full != nil the call is recorded as a case whose
 // replayable input is *full.
 func (sess *session) exec(ctx *core.Ctx, in c17Input, full *c17Input) error {
-	for _, a := range in.Arrays {
+	ro := in.RO && full != nil && in.WarmArgs == nil
+	roRegion := map[int][]byte{} // array index -> its mapping
+	for i, a := range in.Arrays {
+		idx := len(sess.arrs)
+		_ = i
+		dv, hasDst := in.Args["dst"]
+		if ro && len(a) > 0 && !(hasDst && dv.Arr == idx) {
+			arr, reg, err := roAlloc(a)
+			if err != nil {
+				return err
+			}
+			sess.regions = append(sess.regions, reg)
+			roRegion[idx] = reg
+			sess.arrs = append(sess.arrs, arr)
+			continue
+		}
 		sess.arrs = append(sess.arrs, clone(a))
 	}
 	arrs := sess.arrs
@@ -586,10 +631,29 @@ func (sess *session) exec(ctx *core.Ctx, in c17Input, full *c17Input) error {
 	}
 
 	panicked := false
+	var wfault []string // cells of read-only arrays the call was caught writing
 	run := func() {
+		if len(roRegion) > 0 {
+			for _, reg := range roRegion {
+				if e := syscall.Mprotect(reg, syscall.PROT_READ); e != nil {
+					panic(e)
+				}
+			}
+			old := debug.SetPanicOnFault(true)
+			defer debug.SetPanicOnFault(old)
+		}
 		defer func() {
 			if r := recover(); r != nil {
 				panicked = true
+				if fa, ok := r.(interface{ Addr() uintptr }); ok {
+					addr := fa.Addr()
+					for idx, reg := range roRegion {
+						base := uintptr(unsafe.Pointer(&reg[0]))
+						if addr >= base && addr < base+uintptr(len(reg)) {
+							wfault = append(wfault, fmt.Sprintf("(%d,%d)", idx, int(addr-base)))
+						}
+					}
+				}
 			}
 		}()
 		call()
@@ -691,8 +755,8 @@ func (sess *session) exec(ctx *core.Ctx, in c17Input, full *c17Input) error {
 		coqPre[i] = coqBytes(a)
 	}
 	c := hx.Case{Kind: in.Fn, Input: hx.MustJSON(*full), Facts: map[string]any{}}
-	c.Coq = fmt.Sprintf("Case (%s) %s %s %s %s %s %s %s", coqCall, env.coq(), hx.CoqList(coqPre),
-		hx.CoqList(chg), hx.CoqBool(panicked), ec, hx.CoqList(shapes), hx.CoqBool(keySame))
+	c.Coq = fmt.Sprintf("Case (%s) %s %s %s %s %s %s %s %s", coqCall, env.coq(), hx.CoqList(coqPre),
+		hx.CoqList(chg), hx.CoqBool(panicked), ec, hx.CoqList(shapes), hx.CoqBool(keySame), hx.CoqList(wfault))
 
 	// facts about the input, class, statistics
 	maxSpare, minSpare, total := 0, 1<<30, 0
@@ -731,7 +795,10 @@ func (sess *session) exec(ctx *core.Ctx, in c17Input, full *c17Input) error {
 	c.Facts["chain_pos"] = len(full.Prev)
 	c.Class = fmt.Sprintf("%s/%s%s/%s/%s/%s", in.Fn, in.Alg, in.Kind, in.Note, lens, outcome)
 	c.Trivial = total == 0
-	c.Observed = map[string]any{"err": ec, "panicked": panicked, "changed_cells": nchg, "results": obsRes}
+	c.Observed = map[string]any{"err": ec, "panicked": panicked, "changed_cells": nchg, "results": obsRes, "write_faults": wfault}
+	if len(roRegion) > 0 {
+		ctx.Sink.Count("args_in_read_only_memory")
+	}
 	ctx.Sink.Count("fn=" + in.Fn)
 	if in.Alg != "" {
 		ctx.Sink.Count("alg=" + in.Alg)
@@ -858,6 +925,8 @@ func (b *builder) run(ctx *core.Ctx, note string) {
 	if b.r.Chance(1, 5) {
 		b.addWarm()
 		note += "/warm"
+	} else if b.r.Chance(1, 2) {
+		b.in.RO = true
 	}
 	b.in.Note = note
 	if err := c17Run(ctx, b.in); err != nil {
@@ -1001,10 +1070,10 @@ func genAEAD(ctx *core.Ctx, n int) {
 		keyLen, nonceLen := ak.enc+ak.mac, 16
 		switch r.Intn(8) {
 		case 0:
-			keyLen += []int{-1, 1, -16}[r.Intn(3)]
+			keyLen += []int{-1, 1, -16, -8, 8, 16}[r.Intn(6)]
 			note = "badkey"
 		case 1:
-			nonceLen = []int{0, 12, 15, 17}[r.Intn(4)]
+			nonceLen = []int{0, 8, 12, 15, 17, 24, 32}[r.Intn(7)]
 			note = "badnonce"
 		}
 		b.add("key", r.Bytes(keyLen))
@@ -1113,10 +1182,10 @@ func genSym(ctx *core.Ctx, perAlg int, top bool) {
 			kl, nl := keyLen, nonceLen
 			switch r.Intn(10) {
 			case 0:
-				kl = []int{1, 15, 17, 24, 33, 48}[r.Intn(6)]
+				kl = sweepKeyLens[r.Intn(len(sweepKeyLens))]
 				note = "badkey"
 			case 1:
-				nl = []int{0, 11, 13, 16, 23, 25}[r.Intn(6)]
+				nl = sweepNonceLens[r.Intn(len(sweepNonceLens))]
 				note = "badnonce"
 			}
 			ptLen := pickLen(r)
@@ -1166,13 +1235,13 @@ func genSym(ctx *core.Ctx, perAlg int, top bool) {
 				tag = flip(r, tag)
 				note = "corrupt-tag"
 			case 2:
-				tag = r.Bytes([]int{0, 8, 15, 17, 24, 32}[r.Intn(6)])
+				tag = r.Bytes(sweepTagLens[r.Intn(len(sweepTagLens))])
 				note = "taglen"
 			case 3:
-				key = r.Bytes([]int{1, 15, 17, 24, 33, 48}[r.Intn(6)])
+				key = r.Bytes(sweepKeyLens[r.Intn(len(sweepKeyLens))])
 				note = "badkey"
 			case 4:
-				nonce = r.Bytes([]int{0, 11, 13, 16, 23, 25}[r.Intn(6)])
+				nonce = r.Bytes(sweepNonceLens[r.Intn(len(sweepNonceLens))])
 				note = "badnonce"
 			case 5:
 				ct = r.Bytes(pickLen(r))
@@ -1718,6 +1787,88 @@ func (c *chain) follow() {
 	}
 }
 
+// Length sweeps.  The valid sizes of every algorithm's key, nonce and tag, their neighbours on
+// both sides, and the sizes that are valid for OTHER algorithms (a helper "accepting" one of
+// those by extending or truncating the argument is the slip to expose): every symmetric
+// algorithm x every such length, for encryption and decryption, most of the time with at least
+// a block of spare capacity behind every argument.
+var (
+	sweepNonceLens = []int{0, 8, 11, 12, 13, 15, 16, 17, 23, 24, 25, 32}
+	sweepKeyLens   = []int{1, 15, 16, 17, 24, 31, 32, 33, 48, 64, 65}
+	sweepTagLens   = []int{0, 8, 12, 15, 16, 17, 24, 32}
+)
+
+func genLenSweep(ctx *core.Ctx, reps int) {
+	r := ctx.R
+	algs := append(append([]string{}, symAlgs...), "A512CBC")
+	resize := func(b []byte, n int) []byte {
+		out := make([]byte, n)
+		copy(out, b)
+		if n > len(b) && r.Bool() {
+			copy(out[len(b):], r.Bytes(n-len(b)))
+		}
+		return out
+	}
+	one := func(alg, what string, n int, dec bool) {
+		key, nonce, aad := r.Bytes(symKeyLen(alg)), r.Bytes(symNonceLen(alg)), r.Bytes(aadLen(r))
+		ptLen := pickLen(r)
+		if strings.HasSuffix(alg, "KW") && strings.HasPrefix(alg, "A") || strings.HasSuffix(alg, "NOPAD") {
+			ptLen = 16 * r.Range(1, 4)
+		}
+		pt := r.Bytes(ptLen)
+		var ct, tag []byte
+		if dec {
+			jk, _ := jwk.FromRaw(clone(key))
+			c, t, err := kitcrypto.EncryptSymmetric(clone(pt), alg, jk, clone(nonce), clone(aad))
+			if err != nil {
+				c, t = r.Bytes(16*r.Range(1, 3)), r.Bytes(16)
+			}
+			ct, tag = clone(c), clone(t)
+		}
+		switch what {
+		case "nonce":
+			nonce = resize(nonce, n)
+		case "key":
+			key = resize(key, n)
+		case "tag":
+			tag = resize(tag, n)
+		}
+		top := r.Chance(1, 4)
+		fn := map[bool]string{false: "encsym", true: "decsym"}[dec]
+		if top {
+			fn = map[bool]string{false: "encrypt", true: "decrypt"}[dec]
+		}
+		b := newB(r, fn)
+		if r.Chance(3, 4) {
+			b.minSpare = 16
+		}
+		b.in.Alg, b.in.KeyKind = alg, "sym"
+		b.add("key", key)
+		b.add("nonce", nonce) // an arena even when empty: an empty slice with room behind it
+		b.addOpt("aad", aad)
+		if dec {
+			b.add("ct", ct)
+			b.add("tag", tag)
+		} else {
+			b.add("pt", pt)
+		}
+		b.run(ctx, fmt.Sprintf("sweep/%s=%d", what, n))
+	}
+	for k := 0; k < reps; k++ {
+		for _, alg := range algs {
+			for _, n := range sweepNonceLens {
+				one(alg, "nonce", n, r.Bool())
+			}
+			for _, n := range sweepKeyLens {
+				one(alg, "key", n, r.Bool())
+			}
+			for _, n := range sweepTagLens {
+				one(alg, "tag", n, true)
+			}
+		}
+	}
+}
+
 func genChains(ctx *core.Ctx, n int) {
 	r := ctx.R
 	for k := 0; k < n; k++ {
@@ -1845,6 +1996,7 @@ func c17Gen(ctx *core.Ctx) {
 	genSym(ctx, 3*m, true)
 	genAsym(ctx, 4*m)
 	genParseKey(ctx, 200*m)
+	genLenSweep(ctx, m)
 	genChains(ctx, 130*m)
 }
 
@@ -1853,7 +2005,7 @@ func main() {
 		Header:   "From Kit Require Import C17.Check.\nFrom Coq Require Import Strings.Byte.",
 		CaseType: "case",
 		CheckFn:  "run_cases",
-		Shard:    150,
+		Shard:    60,
 		Gen:      c17Gen,
 		RunInput: func(ctx *core.Ctx, raw json.RawMessage) error {
 			var in c17Input
